@@ -101,6 +101,7 @@ type stepGuard struct {
 	events     func() int
 	lastRemain [4]int
 	lastEvents [4]int
+	lastTick   [4]uint64
 	idle       [4]int
 	MaxIdle    int
 	Steps      int
@@ -129,7 +130,7 @@ func withStepGuard(g *stepGuard, events func() int, f func()) {
 			return
 		}
 		ev := g.events()
-		if remaining == g.lastRemain[site] && ev == g.lastEvents[site] {
+		if remaining == g.lastRemain[site] && ev == g.lastEvents[site] && mon.Progress == g.lastTick[site] {
 			g.idle[site]++
 			if g.idle[site] > g.MaxIdle {
 				g.MaxIdle = g.idle[site]
@@ -140,7 +141,7 @@ func withStepGuard(g *stepGuard, events func() int, f func()) {
 			return
 		}
 		g.idle[site] = 0
-		g.lastRemain[site], g.lastEvents[site] = remaining, ev
+		g.lastRemain[site], g.lastEvents[site], g.lastTick[site] = remaining, ev, mon.Progress
 	})
 	defer hook.SetStep(nil)
 	f()
